@@ -6,6 +6,7 @@ import z3
 from pyvc import smt
 from pyvc.smt import Val, I, B, S, kind, KIND_NODE, KIND_LIST
 from pyvc.task import Contract
+from pyvc.core import Unsupported
 from .prelude import *
 from .prelude import _CS
 from .tree import *
@@ -56,7 +57,16 @@ def install_find_all_children(w):
                 **filtered(s0, s, self, child_name, r, s0.nkids(self), "top:exactly-the-matching-children-in-order")}
 
     def inv(s0, s, v):
-        acc = v.V("__comp1")
+        # the accumulator: the comprehension's result list, or — if the function is written as an explicit loop — the one local list
+        name = "__comp1"
+        if not v.has(name):
+            from pyvc.values import PList, Sym
+            d = object.__getattribute__(v, "_d")
+            cands = [k for k, x in d.items() if k not in ("self", "child_name", "_k") and (isinstance(x, PList) or (isinstance(x, Sym) and (x.ty or "").startswith("list")))]
+            if len(cands) != 1:
+                raise Unsupported("find_all_children: cannot identify the accumulator list")
+            name = cands[0]
+        acc = v.V(name)
         r = Val.r(acc)
         return {"acc": z3.And(Val.is_ref(acc), r >= s0.top, r < s.top, kind(r) == KIND_LIST, s.len(r) >= 0), "bound": v._k <= s0.nkids(v.self),
                 "elements-are-nodes": all_nodes_in(s0, s, r), "no-new-nodes": no_new_nodes(s0, s),
